@@ -354,6 +354,7 @@ func checkC17(w *World, r *Report) {
 	r.Explanation += " Rules added in later rounds: (R17.5) a node that names a filter applies it before any successful return. (R17.1) an error in a loop is tested or consumed before the call is made again; collector objects are followed. (R17.6) imports render the library on every successful path."
 	r.Explanation += " Round 9: (R17.7) deferred functions do not overwrite an error already set."
 	r.Explanation += " Round 11: (R17.1) only a not-found classification may end a failure."
+	r.Explanation += " Round 13: (R17.1) no nil-error return is reachable from a propagating call without a look at its error."
 	r.RuleText = "obligation = one propagating call site (R17.1), one name lookup (R17.2), one top-level return (R17.3); non-trivial = all R17.1/R17.2 sites (each needs value flow + path search)"
 	r.Trusted = []string{"fmt.Errorf %w, errors.Join keep the cause reachable", "call graph over-approximation"}
 
